@@ -336,6 +336,7 @@ def sp_bmat(it, blocks, format=None, dtype=None):
 
 def install(it):
     it.lib["scipy.sparse.eye"] = sp_eye
+    it.lib["scipy.sparse.identity"] = lambda it_, n, dtype=None, format=None, **k: sp_eye(it_, n)
     it.lib["scipy.sparse.diags"] = sp_diags
     it.lib["scipy.sparse.bmat"] = sp_bmat
     it.lib["scipy.sparse.issparse"] = lambda it_, m: isinstance(m, Mat)
@@ -488,6 +489,19 @@ def mat_attr(it, m: Mat, name):  # noqa: F811
         return m.coo[0]
     if name == "format":
         return m.fmt
+    if name == "max" and m.coo is None:
+        from .interp import PyFunc
+
+        def _mat_max(it_):
+            # the largest stored entry (or 0 for an implicit zero) of an abstract matrix: an upper bound of all entries
+            M = it_.path.real("mat_max")
+            e = entry_fn(it_, m)
+            from .core import UFact
+
+            it_.path.add_ufact(UFact(2, lambda i, j: ops._real(e(i, j)) <= M, [(0, _iv(m.rows)), (0, _iv(m.cols))], "spmatrix.max:upper_bound"))
+            return M
+
+        return PyFunc(_mat_max, "spmatrix.max")
     if name == "copy":
         from .interp import PyFunc
 
